@@ -78,6 +78,11 @@ def replay_flex_fractional_sum():
     return r[0][3] != 40
 
 
+def replay_flex_content_base_clamped():
+    r = _flex_rects('', ['flex:1 1 auto;min-width:20px;height:5px', 'flex:1 1 auto;width:20px;height:5px'])
+    return r[0][3] != 40
+
+
 def replay_grid_justify_gap():
     r = _grid_rects('grid-template-columns:20px 20px;column-gap:10px;justify-content:center',
                     ['height:5px', 'height:5px'])
@@ -138,6 +143,7 @@ FINDINGS = {
     'flex-align-content-last-item': replay_flex_align_content_last_item,
     'flex-column-clamps-by-width': replay_flex_column_clamps_by_width,
     'flex-fractional-factor-sum': replay_flex_fractional_sum,
+    'flex-content-base-clamped': replay_flex_content_base_clamped,
     'grid-justify-ignores-gap': replay_grid_justify_gap,
     'grid-locked-skips-first-track': replay_grid_locked_first_track,
     'grid-span-first-axis-crash': replay_grid_span_crash,
@@ -410,7 +416,8 @@ class C12(PropCheck):
             return None
         if kind == 'grid':
             doc = doc_from_meta(meta['doc'])
-            return (orc.grid_doc_violation(doc, d['impl']) or tracks_doc_violation(doc, d['impl'])
+            return (orc.grid_doc_violation(doc, d['impl']) or orc.dense_violation(doc, d['impl'])
+                    or tracks_doc_violation(doc, d['impl'])
                     or orc.grid_geometry_violation(doc, d['impl']))
         if kind == 'tracks':
             return tracks_violation(case_from_meta(meta['case']), d['impl'])
@@ -444,7 +451,7 @@ class C12(PropCheck):
             else:
                 doc = simple_grid_doc(rng)
                 out = gx.impl_doc(doc, 6)
-                what = (orc.grid_doc_violation(doc, out) or tracks_doc_violation(doc, out)
+                what = (orc.grid_doc_violation(doc, out) or orc.dense_violation(doc, out) or tracks_doc_violation(doc, out)
                         or orc.grid_geometry_violation(doc, out))
                 if what:
                     found.append({'what': what, 'input': {'meta': {'kind': 'grid', 'doc': doc},
@@ -473,7 +480,7 @@ class C12(PropCheck):
         if kind == 'grid':
             doc = doc_from_meta(meta['doc'])
             out = gx.impl_doc(doc, 10)
-            return (orc.grid_doc_violation(doc, out) or tracks_doc_violation(doc, out)
+            return (orc.grid_doc_violation(doc, out) or orc.dense_violation(doc, out) or tracks_doc_violation(doc, out)
                     or orc.grid_geometry_violation(doc, out))
         grid = gx.grid_mod()
         if kind == 'intersect':
@@ -609,14 +616,18 @@ def tracks_violation(case, out):
             fixed += F(mx[1])
         else:
             fixed += F(case['box']) * F(mx[1]) / 100
-    if not frs or sum(f for _, f in frs) < 1:
+    if not frs:
         return None
+    fr_sum = sum(f for _, f in frs)
+    if fr_sum < 1 and case['stretch'] in ('normal', 'stretch'):
+        return None                      # the rest of the space is given to the tracks by 1.5 (stretch)
     n = len(case['fns'])
     free = F(case['box']) - fixed - F(case['gap']) * (n - 1)
     if free <= 0:
         return None
     sizes = [F(t[0]) for t in sx.loads_line(out)[0]]
-    unit = free / sum(f for _, f in frs)
+    # css-grid 12.7.1: a factor sum below 1 counts as 1 (the tracks only take their fraction)
+    unit = free / max(fr_sum, 1)
     problems = []
     for k, (mn, mx) in enumerate(case['fns']):
         if mx[0] == 'fr':
@@ -659,39 +670,53 @@ def template_violation(template, out):
 
 
 def tracks_doc_violation(doc, out):
-    """Column tracks of a rendered grid with only px and fr columns: they partition the width."""
+    """Tracks of a rendered grid made of px and fr tracks only, on an axis with a definite size and no item
+    contributing a size on that axis: px tracks keep their size, fr tracks share the free space in proportion to
+    their factors (a factor sum below 1 counting as 1, css-grid 12.7.1), and with a sum >= 1 tracks and gaps
+    partition the container."""
     if not out.startswith('ok '):
         return None
     toks = sx.loads_line(out)
-    cols = None
+    found = {}
     for k, t in enumerate(toks):
-        if t == 'cols=':
-            cols = [F(v) for v in toks[k + 1]]
-    if cols is None or doc['cols'] is None:
-        return None
-    if any(it['width'] or any(it[k] for k in ('ml', 'mr', 'pl', 'pr', 'bl', 'br')) for it in doc['items']):
-        return None                      # an item's min-content contribution may make an fr track inflexible
-    tracks = []
-    for e in doc['cols']:
-        if e[0] == 'size':
-            tracks.append(e[1])
-        elif e[0] == 'repeat':
-            tracks.extend([x[1] for x in e[2] if x[0] == 'size'] * e[1])
-    if len(tracks) != len(cols) or not tracks:
-        return None
-    if any(isinstance(t, str) or t[0] not in ('px', 'fr') for t in tracks):
-        return None
-    frs = sum(F(t[1]) for t in tracks if t[0] == 'fr')
-    if frs < 1:
-        return None
-    free = F(doc['width']) - sum(F(t[1]) for t in tracks if t[0] == 'px') - F(doc['colgap']) * (len(tracks) - 1)
-    if free <= 0:
-        return None
-    for t, size in zip(tracks, cols):
-        want = F(t[1]) if t[0] == 'px' else free * F(t[1]) / frs
-        if abs(size - want) > F(1, 10**6):
-            return (f'columns {[gx.css_track(t) for t in tracks]} in {doc["width"]}px with gap {doc["colgap"]}: '
-                    f'sizes {[float(c) for c in cols]} do not partition the container')
+        if t in ('cols=', 'rows='):
+            found[t[:-1]] = [F(v) for v in toks[k + 1]]
+    axes = (('cols', 'columns', doc['cols'], doc['width'], doc['colgap'], doc['jc'],
+             ('width', 'ml', 'mr', 'pl', 'pr', 'bl', 'br')),
+            ('rows', 'rows', doc['rows'], doc['height'], doc['rowgap'], doc['ac'],
+             ('height', 'mt', 'mb', 'pt', 'pb', 'bt', 'bb')))
+    for key, what, template, box, gap, content, keys in axes:
+        sizes = found.get(key)
+        if sizes is None or template is None or box is None:
+            continue
+        if any(any(it[k] for k in keys) for it in doc['items']):
+            continue                     # an item's contribution may make an fr track inflexible
+        tracks = []
+        for e in template:
+            if e[0] == 'size':
+                tracks.append(e[1])
+            elif e[0] == 'repeat':
+                tracks.extend([x[1] for x in e[2] if x[0] == 'size'] * e[1])
+        if len(tracks) != len(sizes) or not tracks:
+            continue                     # implicit tracks were added
+        if any(isinstance(t, str) or t[0] not in ('px', 'fr') for t in tracks):
+            continue
+        frs = sum(F(t[1]) for t in tracks if t[0] == 'fr')
+        if frs == 0:
+            continue
+        if frs < 1:
+            if content in ('normal', 'stretch'):
+                continue                 # stretched over the free space by 1.5
+            frs = F(1)
+        free = F(box) - sum(F(t[1]) for t in tracks if t[0] == 'px') - F(gap) * (len(tracks) - 1)
+        if free <= 0:
+            continue
+        for t, size in zip(tracks, sizes):
+            want = F(t[1]) if t[0] == 'px' else free * F(t[1]) / frs
+            if abs(size - want) > F(1, 10**6):
+                return (f'{what} {[gx.css_track(t) for t in tracks]} in {box}px with gap {gap}: sizes '
+                        f'{[float(c) for c in sizes]}, expected {float(want)} for {gx.css_track(t)} (px tracks keep '
+                        f'their size, fr tracks share the free space in proportion, a factor sum below 1 counts as 1)')
     return None
 
 
